@@ -86,6 +86,14 @@ Proof.
 Qed.
 Print Assumptions C19_getitem_sound_partial.
 
+(* batch.narrow(0, start, length) (the method deepali defines on its batch classes): grids narrowed like the data *)
+Theorem C19_narrow_method_sound_partial :
+  forall (gshape : gid -> shape) (gaxes : gid -> axes) (fl : option axes) (sh : shape) (gs : list gid) (st len : nat),
+  wf_val gshape (mkT sh (TBatch fl gs)) ->
+  res_sound gshape [mkT sh (TBatch fl gs)] (run_op gshape gaxes (ONarrowM 0%Z st len) [mkT sh (TBatch fl gs)]).
+Proof. exact narrow_method_batch_sound. Qed.
+Print Assumptions C19_narrow_method_sound_partial.
+
 Theorem C19_iter_sound :
   forall (gshape : gid -> shape) (gaxes : gid -> axes) (fl : option axes) (sh : shape) (gs : list gid) (k : nat),
   wf_val gshape (mkT sh (TBatch fl gs)) ->
@@ -136,8 +144,8 @@ Print Assumptions C19_split_refuted.
 Theorem C19_getitem_narrow_refuted :
   res_ok [0; 1; 2] (run1 (OGetItem (GOne IEll)) b3) = false
   /\ res_ok [0; 1; 2] (run1 (OGetItem (GOne (IBools [true; false; true]))) b3) = false
-  /\ res_ok [0; 1; 2] (run1 (ONarrowM 0%Z 1 2) b3) = false.
-Proof. exact (conj getitem_ellipsis_refuted (conj getitem_mask_refuted narrow_method_refuted)). Qed.
+  /\ res_ok [0; 1; 2] (run1 (ONarrowM (-4)%Z 1 2) b3) = false.
+Proof. exact (conj getitem_ellipsis_refuted (conj getitem_mask_refuted narrow_method_negative_dim_refuted)). Qed.
 Print Assumptions C19_getitem_narrow_refuted.
 
 Theorem C19_flowfields_refuted :
